@@ -571,33 +571,77 @@ def check_formulas(prog, rep, m):
         for v_ in vs_:
             if isinstance(v_, ast.AST) and norm(v_) in names and n_ not in names:
                 names = dict(names, **{n_: names[norm(v_)]})     # local aliases of nan / inf (whatever they are called)
-    both = plus = minus = False
-    for s_ in infs:
-        a_ = s_.value.args
-        dname = norm(a_[2]) if len(a_) == 3 else None
-        if len(a_) != 3 or names.get(norm(a_[1])) != 'nan' or not isinstance(a_[2], ast.Name) or norm(s_.targets[0]) != dname:
-            continue
-        c0 = norm(a_[0]).replace(' ', '')
-        c0 = c0.replace(dname, 'data') if dname else c0
-        if c0 in ('module.isinf(data)', 'np.isinf(data)', '~module.isfinite(data)&~module.isnan(data)'):
-            both = True
-        for nm, kind in list(names.items()) + [(n_, names[norm(v_)]) for n_, vs_ in la.items() for v_ in vs_ if isinstance(v_, ast.AST) and norm(v_) in names]:
-            if kind == 'inf':
-                plus = plus or c0 in ('data==%s' % nm, '%s==data' % nm)
-                minus = minus or c0 in ('data==-%s' % nm, '-%s==data' % nm)
-    # the masked array must be the one whose nanmin / nanmax are taken (the statements come before them)
-    mm = [s_ for s_ in g.own_nodes() if isinstance(s_, ast.Assign) and isinstance(s_.value, ast.Call) and short(s_.value) in ('nanmax', 'nanmin')]
-    before = bool(infs) and bool(mm) and max(x.lineno for x in infs) < min(x.lineno for x in mm) and \
-        len({norm(x.value.args[0]) for x in mm} | {norm(x.value.args[2]) for x in infs if len(x.value.args) == 3}) == 1
-    ok = (both or (plus and minus)) and before
-    rep.add('K4', g, 'equal_interval', 'infinities removed before nanmin / nanmax', g.node.lineno, ok,
-            '+inf and -inf must not take part in the [min, max] range')
     # ... and the range is taken in floating point on every path: the extrema are reductions of the NaN-filled array (a
     # `where(.., nan, data)` promotes an integer raster to float64) or of a float cast of it.  A selection `data[mask]` keeps
     # the raster's own dtype: for an int16 raster spanning more than 32767 the difference max - min wraps around.
     from ..sharedrules import float_dtype_expr
     RED = ('nanmax', 'nanmin', 'max', 'min', 'amax', 'amin')
     seen_red = []
+    BOTH = frozenset('+-')
+
+    def cond_signs(c, st):
+        """(array expression X, signs of infinity for which the condition is true, is it true for finite cells) of a mask"""
+        if isinstance(c, ast.Compare) and len(c.ops) == 1 and isinstance(c.ops[0], ast.Eq):
+            for a_, b_ in ((c.left, c.comparators[0]), (c.comparators[0], c.left)):
+                sign, e_ = '+', b_
+                if isinstance(e_, ast.UnaryOp) and isinstance(e_.op, ast.USub):
+                    sign, e_ = '-', e_.operand
+                if names.get(norm(e_)) == 'inf':
+                    return a_, frozenset(sign), False
+        if isinstance(c, ast.Call) and short(c) == 'isinf' and len(c.args) == 1:
+            return c.args[0], BOTH, False
+        if isinstance(c, ast.Call) and short(c) == 'isfinite' and len(c.args) == 1:
+            return c.args[0], frozenset(), True
+        if isinstance(c, ast.UnaryOp) and isinstance(c.op, ast.Invert):
+            r_ = cond_signs(c.operand, st)
+            if r_ is not None and r_[1] in (BOTH, frozenset()) and isinstance(c.operand, ast.Call) and short(c.operand) == 'isinf':
+                return r_[0], frozenset(), True
+        if isinstance(c, ast.BinOp) and isinstance(c.op, ast.BitAnd) and norm(c).replace(' ', '').replace('module.', 'np.') in (
+                '~np.isfinite(%s)&~np.isnan(%s)' % ((norm(c.left.operand.args[0]),) * 2 if isinstance(c.left, ast.UnaryOp) and isinstance(c.left.operand, ast.Call) and c.left.operand.args else ('?', '?')),):
+            return c.left.operand.args[0], BOTH, False
+        if isinstance(c, ast.BinOp) and isinstance(c.op, ast.BitOr):
+            a_, b_ = cond_signs(c.left, st), cond_signs(c.right, st)
+            if a_ is not None and b_ is not None and norm(a_[0]) == norm(b_[0]) and not a_[2] and not b_[2]:
+                return a_[0], a_[1] | b_[1], False
+        if isinstance(c, ast.Name):
+            v_ = [x for x in la.get(c.id, []) if isinstance(x, ast.AST)]
+            if len(v_) == 1:
+                return cond_signs(v_[0], st)
+        return None
+
+    def inf_expr(e, st):
+        """signs of infinity known to be absent from the array (None: not known)"""
+        if isinstance(e, ast.Name):
+            return st.get(e.id)
+        if isinstance(e, ast.Call):
+            nm_ = short(e)
+            if nm_ == 'where' and len(e.args) == 3:
+                cs = cond_signs(e.args[0], st)
+                if cs is None:
+                    return None
+                x_, signs, finite_true = cs
+                base = inf_expr(x_, st)
+                if base is None:
+                    return None
+                if not finite_true and names.get(norm(e.args[1])) == 'nan' and norm(e.args[2]) == norm(x_):
+                    return base | signs
+                if finite_true and names.get(norm(e.args[2])) == 'nan' and norm(e.args[1]) == norm(x_):
+                    return BOTH
+                return None
+            if nm_ in ('astype', 'ravel', 'flatten', 'reshape', 'compute', 'copy', 'persist', 'rechunk') and isinstance(e.func, ast.Attribute):
+                return inf_expr(e.func.value, st)
+            if nm_ in ('asarray', 'array', 'ravel') and e.args and not e.keywords:
+                return inf_expr(e.args[0], st)
+            return None
+        if isinstance(e, ast.Subscript):
+            base = inf_expr(e.value, st)
+            cs = cond_signs(e.slice, st)
+            if base is not None and cs is not None and cs[2] and norm(cs[0]) == norm(e.value):
+                return BOTH
+            return base if isinstance(e.slice, ast.Slice) else (None if cs is None else base)
+        if isinstance(e, ast.Attribute) and e.attr in ('data', 'values', 'T'):
+            return frozenset() if isinstance(e.value, ast.Name) and e.value.id in g.params else inf_expr(e.value, st)
+        return None
 
     def fl_expr(e, st):
         if isinstance(e, ast.Name):
@@ -622,29 +666,41 @@ def check_formulas(prog, rep, m):
             return 'raw' if isinstance(e.value, ast.Name) and e.value.id in g.params else fl_expr(e.value, st)
         return None
 
-    def run(body, st):
+    def run(body, st, ist):
         for s_ in body:
             if isinstance(s_, ast.If):
                 a_, b_ = dict(st), dict(st)
-                run(s_.body, a_)
-                run(s_.orelse, b_)
+                ia_, ib_ = dict(ist), dict(ist)
+                run(s_.body, a_, ia_)
+                run(s_.orelse, b_, ib_)
                 for k_ in set(a_) | set(b_):
                     st[k_] = a_.get(k_) if a_.get(k_) == b_.get(k_) else None
+                for k_ in set(ia_) | set(ib_):
+                    ist[k_] = (ia_[k_] & ib_[k_]) if ia_.get(k_) is not None and ib_.get(k_) is not None else None
             elif isinstance(s_, ast.Assign) and len(s_.targets) == 1 and isinstance(s_.targets[0], ast.Name):
                 v_ = s_.value
                 if isinstance(v_, ast.Call) and short(v_) in RED and s_.targets[0].id in (mxn, mnn):
                     opnd = v_.func.value if isinstance(v_.func, ast.Attribute) and not v_.args else (v_.args[0] if v_.args else None)
                     if isinstance(v_.func, ast.Attribute) and v_.args and norm(v_.func.value) in ('module', 'np', 'da', 'numpy', 'cupy', 'dask.array'):
                         opnd = v_.args[0]
-                    seen_red.append((s_, fl_expr(opnd, st) if opnd is not None else None))
+                    seen_red.append((s_, fl_expr(opnd, st) if opnd is not None else None, inf_expr(opnd, ist) if opnd is not None else None))
                     st[s_.targets[0].id] = None
+                    ist[s_.targets[0].id] = None
                 else:
                     st[s_.targets[0].id] = fl_expr(v_, st)
+                    ist[s_.targets[0].id] = inf_expr(v_, ist)
             elif isinstance(s_, (ast.For, ast.While, ast.With, ast.Try)):
                 for fld in ('body', 'orelse', 'finalbody'):
-                    run(getattr(s_, fld, []) or [], st)
-    run(g.body, {})
-    for s_, fl in seen_red:
+                    run(getattr(s_, fld, []) or [], st, ist)
+    run(g.body, {}, {})
+    if not seen_red:
+        rep.add('K4', g, 'equal_interval', 'extrema of the raster', g.node.lineno, None, 'no max / min reduction assigned in %s' % g.name)
+    for s_, fl, absent in seen_red:
+        rep.add('K4', g, 'equal_interval', 'infinities removed before %s' % norm(s_)[:90], s_.lineno,
+                None if absent is None else absent == BOTH,
+                '+inf and -inf must not take part in the [min, max] range: on this path %s' % (
+                    'what the reduced array holds is not known' if absent is None else
+                    'the array still holds %s' % ' and '.join(sorted({'+': '+inf', '-': '-inf'}[x_] for x_ in BOTH - absent))))
         rep.add('K4', g, 'equal_interval', 'range in floating point: %s' % norm(s_)[:90], s_.lineno,
                 True if fl == 'float' else (False if fl == 'raw' else None),
                 'the extremum is a reduction of the raster in its own dtype (no NaN fill, no float cast on this path): for a narrow '
